@@ -356,10 +356,20 @@ class _Derive:
         if isinstance(e, ast.Subscript) and isinstance(e.value, ast.Name) and isinstance(bind.get(e.value.id), tuple) and bind[e.value.id][0] == 'tuple' \
                 and isinstance(e.slice, ast.Constant) and isinstance(e.slice.value, int) and -len(bind[e.value.id][1]) <= e.slice.value < len(bind[e.value.id][1]):
             return bind[e.value.id][1][e.slice.value]
+        outer = self
+
         class R(ast.NodeTransformer):
             def visit_Name(self, node):
                 return ast.Name(id=bind[node.id], ctx=ast.Load()) if bind.get(node.id) in (IDX, ELEM, RANK) else node
-        return ('other', u(R().visit(copy.deepcopy(e))))
+
+            def visit_Subscript(self, node):
+                if node is not root:
+                    c = outer.classify(node, bind, src, at)
+                    if c in (IDX, ELEM, RANK):
+                        return ast.Name(id=c, ctx=ast.Load())      # e.g. source[i] inside a larger expression is the item
+                return self.generic_visit(node)
+        root = copy.deepcopy(e)
+        return ('other', u(R().visit(root)))
 
     def keyfn(self, bind, src, at):
         outer = self
@@ -534,7 +544,24 @@ def _flow_origin(fn, e, at):
     return None
 
 
-def _id_map_flow(m, fi, mapcall, at, gset_param, attr_param):
+def _map_self_checks(m):
+    """What `_map_ids_to_genomes` does itself before building the map (so that its callers need not):
+    validates = the column it adds is the value of `_check_genome_id_attr(<its attribute parameter>)`;
+    guards    = the NULL-id guard (R7) precedes its every return."""
+    fm = _follow_delegation(m, m.func(f'{MOD}._map_ids_to_genomes'))
+    mp = _own_params(fm)
+    out = dict(validates=False, guards=False, fi=fm)
+    if len(mp) < 2:
+        return out
+    rets = [s for s in stmts_in(fm.node.body) if isinstance(s, ast.Return)]
+    addc = [c for c in calls_in(fm.node) if callee_attr(c) == 'add_columns' and len(c.args) == 1]
+    pm = find_parent_map(fm.node)
+    out['validates'] = len(addc) == 1 and _validated_attr(m, fm, addc[0].args[0], enclosing_stmt(fm.node, addc[0], pm), mp[1])
+    out['guards'] = bool(rets) and _null_id_guard(None, m, fm, mp[0], mp[1], rets)[0]
+    return out
+
+
+def _id_map_flow(m, fi, mapcall, at, gset_param, attr_param, callee_validates=False):
     """For a call `_map_ids_to_genomes(a0, a1)` evaluated at `at`: (a0 is the genome-set parameter, a1 is the value of
     `_check_genome_id_attr(<id attribute parameter>)`, description) - decided on value flow, not on the names used."""
     fn = fi.node
@@ -544,6 +571,8 @@ def _id_map_flow(m, fi, mapcall, at, gset_param, attr_param):
     o0, o1 = _flow_origin(fn, a[0], at), _flow_origin(fn, a[1], at)
     ok_set = o0 == ('param', gset_param)
     ok_val, seen = False, str(o1[:2]) if o1 and o1[0] == 'param' else (u(o1[1]) if o1 else 'no unique definition')
+    if callee_validates and o1 == ('param', attr_param):
+        ok_val, seen = True, f'{seen} (validated inside _map_ids_to_genomes)'
     if o1 and o1[0] == 'expr' and isinstance(o1[1], ast.Call) and m.resolve_call(fi, o1[1]) == f'{MOD}._check_genome_id_attr' and len(o1[1].args) == 1 and not o1[1].keywords:
         ok_val = _flow_origin(fn, o1[1].args[0], o1[2]) == ('param', attr_param)
     return ok_set, ok_val, f'{u(mapcall)} with {u(a[1])} <- {seen}'
@@ -556,7 +585,7 @@ def _validated_attr(m, fi, e, at, attr_param):
                 and _flow_origin(fi.node, o[1].args[0], o[2]) == ('param', attr_param))
 
 
-def _null_id_guard(rep, m, fi, gset_param, attr_param, rets):
+def _null_id_guard(rep, m, fi, gset_param, attr_param, rets, callee_validates=False):
     """R7 at one function that looks ids up in the id map: before every `return`, the case "some genome of the set has no value
     for the id attribute" (then None is a key of the map and pairing by id is not defined) has raised.  Accepted spellings of
     the guard statement:  `_check_genomes_have_ids(<genome set>, <validated attribute>)`  or  `raise ...` ;  executed on every path
@@ -579,7 +608,7 @@ def _null_id_guard(rep, m, fi, gset_param, attr_param, rets):
             owner = next((o for (_, _, o) in reversed(block_path(fn, s)) if isinstance(o, ast.If)), None)
             o = _flow_origin(fn, dn, owner) if isinstance(dn, ast.Name) and owner is not None else None
             is_map = bool(o and o[0] == 'expr' and isinstance(o[1], ast.Call) and m.resolve_call(fi, o[1]) == f'{MOD}._map_ids_to_genomes'
-                          and _id_map_flow(m, fi, o[1], o[2], gset_param, attr_param)[:2] == (True, True))
+                          and _id_map_flow(m, fi, o[1], o[2], gset_param, attr_param, callee_validates)[:2] == (True, True))
             if len(none_key) > 1 or none_key[0][0] != 'in' or not is_map:
                 seen.append(f'{u(s)[:50]} under {none_key}: not `None in <the id map of this genome set>`')
                 continue
@@ -660,6 +689,55 @@ def _raised_class(m, fi, r):
         if len(made) == 1 and None not in made and rets and not any(isinstance(n, (ast.Yield, ast.YieldFrom)) for n in ast.walk(t.node)):
             return made.pop()
     return None
+
+
+def _assume(e, env):
+    """Boolean expression `e` with the names in env (name -> constant) replaced by their value and and/or/not simplified."""
+    if isinstance(e, ast.Name) and e.id in env:
+        return ast.copy_location(ast.Constant(value=env[e.id]), e)
+    if isinstance(e, ast.UnaryOp) and isinstance(e.op, ast.Not):
+        v = _assume(e.operand, env)
+        if isinstance(v, ast.Constant):
+            return ast.copy_location(ast.Constant(value=not v.value), e)
+        return ast.copy_location(ast.UnaryOp(op=ast.Not(), operand=v), e)
+    if isinstance(e, ast.BoolOp):
+        is_and = isinstance(e.op, ast.And)
+        vals = []
+        for x in e.values:
+            v = _assume(x, env)
+            if isinstance(v, ast.Constant):
+                if bool(v.value) != is_and:
+                    return ast.copy_location(ast.Constant(value=not is_and), e)      # False in an `and` / True in an `or` decides it
+                continue
+            vals.append(v)
+        if not vals:
+            return ast.copy_location(ast.Constant(value=is_and), e)
+        return vals[0] if len(vals) == 1 else ast.copy_location(ast.BoolOp(op=e.op, values=vals), e)
+    return e
+
+
+def _specialise(fnode, env):
+    """A copy of the function for fixed option values: every `if` whose test is decided by env is replaced by the arm taken,
+    the remaining tests are simplified (`flag and X` -> X)."""
+    class S(ast.NodeTransformer):
+        def visit_If(self, node):
+            t = _assume(node.test, env)
+            if isinstance(t, ast.Constant):
+                out = []
+                for x in (node.body if t.value else node.orelse):
+                    r = self.visit(x)
+                    out += r if isinstance(r, list) else [r]
+                return out
+            node.test = t
+            return self.generic_visit(node)
+
+        def visit_FunctionDef(self, node):
+            return node if node is not root else self.generic_visit(node)
+    root = copy.deepcopy(fnode)
+    S().visit(root)
+    if not root.body:
+        root.body = [ast.Pass()]
+    return ast.fix_missing_locations(root)
 
 
 def _parse_expr(text):
@@ -1104,7 +1182,9 @@ def check(ctx):
     rep.rule('R5', 'locate_files: each suffix group must match exactly one file (n != 1 raises DatabaseLoadError) before it is taken')
     rep.rule('R7', 'premise of R2: a genome set with a NULL id never yields a lookup (count query > 0, or a None key of the id map, raises before any id is looked up)')
     rep.rule('R6', 'query(): signatures, ref_indices and genomes all come from the one db object; loaders pass the loaded objects to the constructor')
-    rep.trusted += ['SQLAlchemy Query.add_columns yields rows (entity, added column)', 'dict.get returns None for an unknown id']
+    rep.trusted += ['SQLAlchemy Query.add_columns yields rows (entity, added column)', 'dict.get returns None for an unknown id',
+                    'the values of the id map are AnnotatedGenome rows, never None (so `id in d` and `d.get(id) is not None` select the same ids)']
+    MS = _map_self_checks(m)      # what _map_ids_to_genomes validates / guards itself, on behalf of its callers
 
     # ---------------------------------------------------------------------------------- R1
     fi = m.func(f'{MOD}.genomes_by_id_subset')
@@ -1142,12 +1222,16 @@ def check(ctx):
         else:
             raise Undecided(f'genomes_by_id_subset: the genome list holds {G.elt[1]} for each id: not a recognised lookup of the id')
     entry_t = entry if isinstance(entry, str) else entry[1]
+
+    def kept_when_matched(sq):
+        """unknown ids are skipped: `entry is not None`, or - looking ids up in the map directly - `id in <that map>`"""
+        return ('isnot', entry_t, 'None') in sq.filt or ('isnot', 'None', entry_t) in sq.filt or (receiver is not None and ('in', ELEM, receiver) in sq.filt)
     rep.add('R1', fi.site(G.site), 'the genome list holds the entry at the enumerated position', G.elt == entry and (not by_ids or receiver is not None),
             expected='lookup[i]' if not by_ids else '<id map>.get(ids[i])', found=G.describe(), stmt='append genome')
     rep.add('R1', fi.site(I.site), 'the index list holds the position in the signature-ID list (not a running count)', I.elt == IDX,
             expected='i', found=I.describe(), stmt='append index')
     for sq, name in ((G, 'genome'), (I, 'index')):
-        rep.add('R1', fi.site(sq.site), f'{name} is kept only for `entry is not None` (unmatched signature IDs are skipped together)', ('isnot', entry_t, 'None') in sq.filt or ('isnot', 'None', entry_t) in sq.filt,
+        rep.add('R1', fi.site(sq.site), f'{name} is kept only for `entry is not None` (unmatched signature IDs are skipped together)', kept_when_matched(sq),
                 expected='<entry> is not None', found=sorted(sq.filt), stmt=f'{name} guard')
     site_l = sv if isinstance(sv, ast.AST) and hasattr(sv, 'lineno') else rets[0]
     if by_ids and receiver is not None:
@@ -1156,12 +1240,14 @@ def check(ctx):
         mst_ = enclosing_stmt(fn, maps[0], dv.pm)
         rep.require(not any(isinstance(o, (ast.For, ast.While)) for (_, _, o) in block_path(fn, mst_)) and u(_subst(fn, maps[0], mst_)) == receiver,
                     f'genomes_by_id_subset: cannot tell that {receiver} is the id map built by {u(maps[0])[:60]}')
-        ok_set, ok_val, seen_m = _id_map_flow(m, fi, maps[0], mst_, gset, id_attr)
+        ok_set, ok_val, seen_m = _id_map_flow(m, fi, maps[0], mst_, gset, id_attr, MS['validates'])
         rep.add('R1', fi.site(maps[0]), 'the enumerated list is the per-ID lookup of the given ids', ok_set, expected=f'_map_ids_to_genomes({gset}, <validated {id_attr}>).get(id) for each id of {ids}', found=seen_m,
                 stmt='lookup list')
         rep.add('R4', fi.site(maps[0]), 'the id attribute is validated before use', ok_val, expected=f'_check_genome_id_attr({id_attr})', found=seen_m, stmt='id_attr validation [subset]')
-        rep.add('R1', fi.site(G.site), 'the lookup is non-strict (unrelated signatures in the file are tolerated)', not strict_lookup, expected='<id map>.get(id)', found=G.elt[1], stmt='strict flag')
-        okn_s, seen_ns = _null_id_guard(rep, m, fi, gset, id_attr, rets)
+        rep.add('R1', fi.site(G.site), 'the lookup is non-strict (unrelated signatures in the file are tolerated)', not strict_lookup or ('in', ELEM, receiver) in G.filt, expected='<id map>.get(id), or <id map>[id] only for ids that are keys of it', found=G.describe(), stmt='strict flag')
+        okn_s, seen_ns = _null_id_guard(rep, m, fi, gset, id_attr, rets, MS['validates'])
+        if not okn_s and MS['guards'] and ok_set and ok_val:
+            okn_s, seen_ns = True, 'guard inside _map_ids_to_genomes, called with this genome set and id attribute'
         rep.add('R7', fi.site(), 'no id is looked up for a genome set in which some genome has no value for the id attribute', okn_s,
                 expected=f'_check_genomes_have_ids({gset}, <validated {id_attr}>) (or a raise under `None in <id map>`) before the lookup', found=seen_ns, stmt='null-id guard [subset]')
     else:
@@ -1246,12 +1332,14 @@ def check(ctx):
     dd = assigns_to(fb.node, dname)
     od = _flow_origin(fb.node, _parse_expr(dname), dname_at) if _parse_expr(dname) is not None else None
     is_map = len(dd) <= 1 and bool(od) and od[0] == 'expr' and isinstance(od[1], ast.Call) and m.resolve_call(fb, od[1]) == f'{MOD}._map_ids_to_genomes'
-    ok_set, ok_val, seen_m = _id_map_flow(m, fb, od[1], od[2], bp_[0], bp_[1]) if is_map else (False, False, [u(x) for x in dd])
+    ok_set, ok_val, seen_m = _id_map_flow(m, fb, od[1], od[2], bp_[0], bp_[1], MS['validates']) if is_map else (False, False, [u(x) for x in dd])
     rep.add('R1', fb.site(dd[0] if dd else None), 'the lookup dict is the id map of this genome set', is_map and ok_set, expected=f'_map_ids_to_genomes({bp_[0]}, id_attr)', found=seen_m,
             stmt='lookup dict')
     rep.add('R4', fb.site(dd[0] if dd else None), 'the id attribute is validated before use', is_map and ok_val,
             expected=f'_map_ids_to_genomes({bp_[0]}, _check_genome_id_attr({bp_[1]}))', found=seen_m, stmt='id_attr validation')
-    okn, seen_n = _null_id_guard(rep, m, fb, bp_[0], bp_[1], rets_b)
+    okn, seen_n = _null_id_guard(rep, m, fb, bp_[0], bp_[1], rets_b, MS['validates'])
+    if not okn and MS['guards'] and is_map and ok_set and ok_val:
+        okn, seen_n = True, 'guard inside _map_ids_to_genomes, called with this genome set and id attribute'
     rep.add('R7', fb.site(), 'no id is looked up for a genome set in which some genome has no value for the id attribute', okn,
             expected=f'_check_genomes_have_ids({bp_[0]}, <validated {bp_[1]}>) (or a raise under `None in <id map>`) before every return', found=seen_n, stmt='null-id guard')
     # _check_genomes_have_ids: raises exactly when the count of genomes of the set whose id attribute IS NULL is positive
@@ -1386,8 +1474,19 @@ def check(ctx):
             expected='no in-place modification', found=[u(t)[:60] for t in touched], stmt='lists unmodified')
     arg = [_subst(cn, a, sst) for a in sc.args]
     rep.add('R3', fc.site(sst), 'ids and the id attribute come from the same signatures object; genomes from the given genome set',
-            len(arg) == 3 and not sc.keywords and u(arg[0]) == gsetp and u(arg[1]) == f'{sigp}.meta.id_attr' and u(arg[2]) == f'{sigp}.ids',
+            len(arg) >= 3 and u(arg[0]) == gsetp and u(arg[1]) == f'{sigp}.meta.id_attr' and u(arg[2]) == f'{sigp}.ids',
             expected=f'({gsetp}, {sigp}.meta.id_attr, {sigp}.ids)', found=tuple(u(a) for a in arg), stmt='subset arguments')
+    # further arguments are options of the subset function: only constants can be followed into it
+    fsub = m.func(f'{MOD}.genomes_by_id_subset')
+    sub_p = fsub.params()
+    rep.require(not any(isinstance(a, ast.Starred) for a in sc.args) and all(k.arg in sub_p[3:] for k in sc.keywords) and len(sc.args) <= len(sub_p),
+                f'ReferenceDatabase.__init__: {u(sc)[:80]} binds parameters of genomes_by_id_subset in a way the rule does not follow')
+    sub_opts = {}
+    for pname in sub_p[3:]:
+        k_ = sub_p.index(pname)
+        a_ = sc.args[k_] if k_ < len(sc.args) else next((kw.value for kw in sc.keywords if kw.arg == pname), fsub.param_default(pname))
+        rep.require(isinstance(a_, ast.Constant), f'ReferenceDatabase.__init__: option {pname} of genomes_by_id_subset is given as {u(a_)}, not a constant')
+        sub_opts[pname] = a_.value
     _require_params(rep, cn, (gsetp, sigp), sst, 'ReferenceDatabase.__init__')
     at = _facts(cn, gmc[sst])
     idt = u(arg[1]) if len(arg) > 1 else None
@@ -1411,20 +1510,59 @@ def check(ctx):
         if a:
             eat |= a
     want = [Aff({f'len({x})': 1, 'SET_COUNT': -1}) for x in ('MATCHED_GENOMES', 'MATCHED_INDICES')]
-    okc = False
-    for a in eat:
-        dif = None
-        if a[0] == 'eq':
-            l, r = (Aff.try_of(_parse_expr(x)) if _parse_expr(x) is not None else None for x in a[1:])
-            dif = l.sub(r) if l is not None and r is not None else None
-        elif a[0] == 'false':      # `if n - len(genomes): raise`  -> zero on the normal exit
-            dif = Aff.try_of(_parse_expr(a[1])) if _parse_expr(a[1]) is not None else None
-            if dif is not None and not dif.terms:
-                dif = None
-        if dif is not None and any(dif == w or dif == w.scale(-1) for w in want):
-            okc = True
-    rep.add('R3', fc.site(last), 'a database object exists only if every genome of the set was matched to a signature', okc, expected=f'len({selfp}.genomes) == {cnt} on every normal exit',
-            found=sorted(eat), stmt='completeness guard')
+
+    def complete(facts):
+        """Do the facts contain: number of matched genomes == number of genomes of the set?"""
+        for a in facts:
+            dif = None
+            if a[0] == 'eq':
+                l, r = (Aff.try_of(_parse_expr(x)) if _parse_expr(x) is not None else None for x in a[1:])
+                dif = l.sub(r) if l is not None and r is not None else None
+            elif a[0] == 'false':      # `if n - len(genomes): raise`  -> zero on the normal exit
+                dif = Aff.try_of(_parse_expr(a[1])) if _parse_expr(a[1]) is not None else None
+                if dif is not None and not dif.terms:
+                    dif = None
+            if dif is not None and any(dif == w or dif == w.scale(-1) for w in want):
+                return True
+        return False
+    okc = complete(eat)
+    c_site, c_found, c_expected = fc.site(last), sorted(eat), f'len({selfp}.genomes) == {cnt} on every normal exit'
+    if not okc and okt:
+        # the check may have moved into genomes_by_id_subset (behind an option the constructor passes): what holds where that
+        # function returns, under the given options, holds for the lists the constructor stores
+        rs0 = [s_ for s_ in stmts_in(fsub.node.body) if isinstance(s_, ast.Return)]
+        params_kept = len(rs0) == 1 and all(reaching_def(fsub.node, p_, rs0[0]) is PARAM for p_ in list(sub_opts) + sub_p[:3])
+        sn = _specialise(fsub.node, sub_opts)       # the function as it runs with these options
+        gms = guard_map(sn)
+        rs = [s_ for s_ in stmts_in(sn.body) if isinstance(s_, ast.Return)]
+        if params_kept and len(rs) == 1 and isinstance(rs[0].value, ast.Tuple) and len(rs[0].value.elts) == 2:
+            tsub = {f'{sub_p[0]}.genomes.count()': table[cnt], u(rs[0].value.elts[0]): table[f'{sc_text}[0]'], u(rs[0].value.elts[1]): table[f'{sc_text}[1]']}
+            sat = set()
+            for t, p_ in _xguards(sn, gms[rs[0]]):
+                a = atoms(_replace(_assume(t, sub_opts), tsub), p_)
+                if a:
+                    sat |= a
+            okc = complete(sat)
+            c_site, c_found = fsub.site(rs[0]), sorted(sat) + [f'options {sub_opts}']
+            c_expected = f'len(<matched genomes>) == {sub_p[0]}.genomes.count() where genomes_by_id_subset returns (options {sub_opts}), or in the constructor'
+            if not okc:
+                # a count comparison is there but against another quantity: name it
+                for a in sat:
+                    if a[0] != 'eq':
+                        continue
+                    sides = [x for x in a[1:] if x not in ('len(MATCHED_GENOMES)', 'len(MATCHED_INDICES)')]
+                    if len(sides) != 1:
+                        continue
+                    o_ = _parse_expr(sides[0])
+                    inner = o_.args[0] if isinstance(o_, ast.Call) and isinstance(o_.func, ast.Name) and o_.func.id == 'len' and len(o_.args) == 1 else None
+                    if isinstance(inner, ast.Call) and m.resolve_call(fsub, inner) == f'{MOD}._map_ids_to_genomes':
+                        c_found = [f'the matched count is compared with {sides[0]}: the number of DISTINCT id values (genomes sharing an id value collapse into one key), not the number of genomes of the set'] + c_found
+                    elif isinstance(inner, ast.Name) and inner.id == sub_p[2]:
+                        c_found = [f'the matched count is compared with {sides[0]}: the number of signature ids, not the number of genomes of the set'] + c_found
+                    else:
+                        raise Undecided(f'genomes_by_id_subset: the matched count is compared with {sides[0]}; whether that is the number of genomes of the set is not evaluated')
+    rep.add('R3', c_site, 'a database object exists only if every genome of the set was matched to a signature', okc, expected=c_expected,
+            found=c_found, stmt='completeness guard')
     for s in stmts_in(cn.body):
         if isinstance(s, ast.Return):
             rep.add('R3', fc.site(s), 'no early return bypasses the completeness check', False, expected='none', found=u(s), stmt='early return')
@@ -1797,6 +1935,36 @@ _FIND_PER_EXT = _EXT_CONSTS + """def _find_one(directory, extensions, desc):
 
 
 """
+_MAPQ_OLD = "\tq = genomeset.genomes.join(AnnotatedGenome.genome).add_columns(id_attr)\n\treturn {id_: g for g, id_ in q}"
+_MAPQ_SELFCHECK = "\tid_attr = _check_genome_id_attr(id_attr)\n\t_check_genomes_have_ids(genomeset, id_attr)\n" + _MAPQ_OLD
+_BYID_PROLOGUE_OLD = "\tid_attr = _check_genome_id_attr(id_attr)\n\t_check_genomes_have_ids(genomeset, id_attr)\n\td = _map_ids_to_genomes(genomeset, id_attr)\n\tif strict:"
+_BYID_PROLOGUE_NEW = "\td = _map_ids_to_genomes(genomeset, id_attr)\n\tif strict:"
+_SUBSET_SIG_OLD = "                         ids: Sequence,\n                         ) -> tuple[list[AnnotatedGenome], list[int]]:"
+_SUBSET_SIG_NEW = "                         ids: Sequence,\n                         require_all: bool = False,\n                         ) -> tuple[list[AnnotatedGenome], list[int]]:"
+_SUBSET_REQUIRE_ALL = """\td = _map_ids_to_genomes(genomeset, id_attr)
+\tidxs_out = [i for i, id_ in enumerate(ids) if id_ in d]
+\tgenomes_out = [d[ids[i]] for i in idxs_out]
+
+\tif require_all and len(genomes_out) != TOTAL:
+\t\tmissing = TOTAL - len(genomes_out)
+\t\traise ValueError(f'{missing} of {TOTAL} genomes not matched to signature IDs.')
+"""
+_INIT_CHECK_OLD = """\t\tself.genomes, self.sig_indices = genomes_by_id_subset(genomeset, id_attr, signatures.ids)
+
+\t\tn = genomeset.genomes.count()
+\t\tif len(self.genomes) != n:
+\t\t\tmissing = n - len(self.genomes)
+\t\t\traise ValueError(f'{missing} of {n} genomes not matched to signature IDs. Is the id_attr attribute of the signatures metadata correct?')
+"""
+_INIT_REQUIRE_ALL = "\t\tself.genomes, self.sig_indices = genomes_by_id_subset(genomeset, id_attr, signatures.ids, require_all=True)\n"
+
+
+def _moved_check(total, init=_INIT_REQUIRE_ALL, mapq=_MAPQ_SELFCHECK, body=_SUBSET_REQUIRE_ALL):
+    """Edits of the 'completeness check moved into genomes_by_id_subset(require_all=True), validation moved into the id map' refactoring;
+    `total` is what the matched count is compared with."""
+    return ((_R, _BYID_PROLOGUE_OLD, _BYID_PROLOGUE_NEW), (_R, _SUBSET_SIG_OLD, _SUBSET_SIG_NEW), (_R, _SUBSET_CALL_OLD, body.replace('TOTAL', total)), (_R, _INIT_CHECK_OLD, init)), mapq
+
+
 _LOCATE_OLD = """\t\tdef check_single_match(matches, desc: str):
 \t\t\tn = len(matches)
 \t\t\tif n != 1:
@@ -2062,4 +2230,19 @@ VARIANTS = [
       also=((_R, _LOADSET_DEF, _FIND_POOLED.replace("\tif matches:\n\t\treturn matches[0]\n", "\treturn matches[0]\n") + _LOADSET_DEF),)),
     V('pooled helper: several files tolerated', 'B', _R, _LOCATE_OLD, _FIND_CALLS, 'R5',
       also=((_R, _LOADSET_DEF, _FIND_POOLED.replace("if len(matches) > 1:", "if len(matches) > 2:") + _LOADSET_DEF),)),
+    # ---- fifth pass: completeness check moved into the subset function behind an option (seeded C04e)
+    V('E: validation inside the id map, subset by membership + subscript, completeness behind require_all=True against the genome count', 'E', _R, _MAPQ_OLD, _moved_check('genomeset.genomes.count()')[1],
+      also=_moved_check('genomeset.genomes.count()')[0]),
+    V('moved completeness check compares with the size of the id map (seeded C04e)', 'B', _R, _MAPQ_OLD, _moved_check('len(d)')[1], 'R3', also=_moved_check('len(d)')[0]),
+    V('moved completeness check compares with the number of signature ids', 'B', _R, _MAPQ_OLD, _moved_check('len(ids)')[1], 'R3', also=_moved_check('len(ids)')[0]),
+    V('moved completeness check: the constructor does not ask for it', 'B', _R, _MAPQ_OLD, _moved_check('genomeset.genomes.count()')[1], 'R3',
+      also=_moved_check('genomeset.genomes.count()', init="\t\tself.genomes, self.sig_indices = genomes_by_id_subset(genomeset, id_attr, signatures.ids)\n")[0]),
+    V('moved completeness check: the option disables instead of enables', 'B', _R, _MAPQ_OLD, _moved_check('genomeset.genomes.count()')[1], 'R3',
+      also=_moved_check('genomeset.genomes.count()', body=_SUBSET_REQUIRE_ALL.replace("if require_all and", "if not require_all and"))[0]),
+    V('callers rely on the id map to validate the attribute, but it does not', 'B', _R, _MAPQ_OLD, "\t_check_genomes_have_ids(genomeset, id_attr)\n" + _MAPQ_OLD, 'R4',
+      also=_moved_check('genomeset.genomes.count()')[0]),
+    V('callers rely on the id map for the NULL-id check, but it does not do it', 'B', _R, _MAPQ_OLD, "\tid_attr = _check_genome_id_attr(id_attr)\n" + _MAPQ_OLD, 'R7',
+      also=_moved_check('genomeset.genomes.count()')[0]),
+    V('subscript lookup of every id (no membership filter on the genome list)', 'B', _R, _MAPQ_OLD, _moved_check('genomeset.genomes.count()')[1], 'R1',
+      also=_moved_check('genomeset.genomes.count()', body=_SUBSET_REQUIRE_ALL.replace("genomes_out = [d[ids[i]] for i in idxs_out]", "genomes_out = [d[id_] for id_ in ids]"))[0]),
 ]
